@@ -120,7 +120,7 @@ func runHistoryInBubble(kind *kvKind, u *universe, hist []int, o runOpts, ch *ch
 	}
 	type kept struct {
 		step int
-		in   *inst
+		in   *liveRun
 	}
 	var conts []kept
 	defer func() {
@@ -146,11 +146,25 @@ func runHistoryInBubble(kind *kvKind, u *universe, hist []int, o runOpts, ch *ch
 		feeds++
 		last := step == len(hist)-1
 		needCont := o.cont && !last && want(step, scnContinue)
-		if !want(step, scnPrefix) && !needCont && !(last && kind.fileBacked() && want(step, scnReopen)) {
-			continue
-		}
+		// The live server is queried after every arrival, also when only one point
+		// is compared (confirmation, replay): queries have side effects on the
+		// live corpus (lazily sorted permanode lists cached per generation).
 		lobs := observe(u, l.x.Index, l.corp)
 		lastObs = lobs
+		if needCont {
+			var db []hs.Blob
+			for _, b := range hist[:step+1] {
+				db = append(db, set.Blobs[b])
+			}
+			rl, err := restartLive(kind, u, l.st.kv, srcWith(set, hist[:step+1]), db)
+			if err != nil {
+				return pts, feeds, fmt.Errorf("restart at step %d: %v", step, err)
+			}
+			conts = append(conts, kept{step, rl})
+		}
+		if !want(step, scnPrefix) {
+			continue
+		}
 		r, err := restart(kind, set, l.st.kv, srcWith(set, hist[:step+1]), nil, nil)
 		if err != nil {
 			return pts, feeds, fmt.Errorf("restart at step %d: %v", step, err)
@@ -169,11 +183,7 @@ func runHistoryInBubble(kind *kvKind, u *universe, hist []int, o runOpts, ch *ch
 			pat := l.pattern()
 			pts = append(pts, point{Step: step, Scn: scnPrefix, Findings: fs, Outcome: pat + "\x00" + obsKey(lobs), Nontrivial: pat != "in-order", NQueries: len(lobs)})
 		}
-		if needCont {
-			conts = append(conts, kept{step, r})
-		} else {
-			r.close()
-		}
+		r.close()
 	}
 	// the same file closed and opened again, compared with the last live answers
 	if kind.fileBacked() && want(len(hist)-1, scnReopen) && lastObs != nil {
@@ -199,27 +209,48 @@ func runHistoryInBubble(kind *kvKind, u *universe, hist []int, o runOpts, ch *ch
 		}
 		pts = append(pts, point{Step: step, Scn: scnReopen, Findings: fs, Outcome: pat + "\x00" + obsKey(lastObs), Nontrivial: pat != "in-order", NQueries: len(lastObs)})
 	}
-	// restart at step k, then the rest of the history: the rows at the end must
-	// be the rows of the uninterrupted run.
+	// restart at step k, then the rest of the history: (1) the rows at the end
+	// must be the rows of the uninterrupted run; (2) the restarted server that
+	// went on receiving is a live server again: its answers must equal what
+	// another restart over its rows would load.
 	if len(conts) > 0 {
 		liveRows := world.DumpKV(l.st.kv)
 		for _, k := range conts {
+			cl := k.in
 			for _, bi := range hist[k.step+1:] {
 				// simultaneously ready blobs are re-indexed lowest-first here: the order is
 				// enumerated for the uninterrupted run only (the persisted rows must not depend on it)
-				if err := feedAwait(k.in, set.Blobs[bi], &chooser{}); err != nil {
+				if err := cl.feed(set.Blobs[bi], &chooser{}); err != nil {
 					return pts, feeds, fmt.Errorf("ReceiveBlob(%s) after restart at step %d: %v", set.Blobs[bi].Name, k.step, err)
 				}
 				feeds++
 			}
-			rows := world.DumpKV(k.in.st.kv)
+			rows := world.DumpKV(cl.st.kv)
 			types, text := rowsDiff(liveRows, rows)
-			p := point{Step: k.step, Scn: scnContinue, Outcome: fmt.Sprintf("%v\x00%d", types, len(rows)), Nontrivial: true, NQueries: len(rows)}
+			p := point{Step: k.step, Scn: scnContinue, Nontrivial: true}
 			if len(types) > 0 {
 				class := scnContinue + ":" + set.Name + ":" + strings.Join(types, ",")
-				p.Findings = []finding{{Sig: "C06|" + kind.Name + "|persisted-rows|" + class, Method: "persisted-rows", Class: class, N: 1,
-					First: diff{M: "persisted-rows", A: fmt.Sprintf("restart after step %d, then the remaining arrivals", k.step+1), Live: "(uninterrupted run)", Other: text}}}
+				p.Findings = append(p.Findings, finding{Sig: "C06|" + kind.Name + "|persisted-rows|" + class, Method: "persisted-rows", Class: class, N: 1,
+					First: diff{M: "persisted-rows", A: fmt.Sprintf("restart after arrival #%d, then the remaining arrivals", k.step+1), Live: "(uninterrupted run)", Other: text}})
 			}
+			cobs := observe(u, cl.x.Index, cl.corp)
+			r2, err := restart(kind, set, cl.st.kv, srcWith(set, hist), nil, nil)
+			if err != nil {
+				return pts, feeds, fmt.Errorf("second restart (first after step %d): %v", k.step, err)
+			}
+			robs := observe(u, r2.x.Index, r2.corp)
+			r2.close()
+			diffs, err := diffObs(cobs, robs)
+			var fs []finding
+			if err == nil {
+				fs, err = cl.findings(scnContinue, cobs, diffs)
+			}
+			if err != nil {
+				return pts, feeds, err
+			}
+			p.Findings = append(p.Findings, fs...)
+			p.Outcome = fmt.Sprintf("%v\x00%d\x00", types, len(rows)) + obsKey(cobs)
+			p.NQueries = len(cobs)
 			pts = append(pts, p)
 		}
 	}
@@ -311,32 +342,45 @@ func normMsg(msg string) string {
 
 // oneHistory runs and accounts one history under every schedule of the tier.
 func (r *runner) oneHistory(kind *kvKind, s *Set, hist []int, cont bool) {
-	var prefix []int
-	last := false
-	for {
-		ch := &chooser{prefix: prefix, last: last}
-		r.oneExecution(kind, s, hist, cont, ch)
-		if r.all {
-			if prefix = ch.next(); prefix == nil {
-				return
-			}
-			continue
-		}
-		// quick: lowest-first, then highest-first when there was any choice
-		if last || len(ch.nodes) == 0 {
+	if r.all && !kind.fileBacked() {
+		// thorough, memory KV: every order of simultaneously ready blobs. The
+		// restart-then-continue scenario (whose continued servers use the
+		// lowest-first order anyway) runs with the first and the last schedule only.
+		first := &chooser{}
+		r.oneExecution(kind, s, hist, cont, first, "")
+		if len(first.nodes) == 0 {
 			return
 		}
-		last = true
+		for prefix := first.next(); prefix != nil; {
+			ch := &chooser{prefix: prefix}
+			r.oneExecution(kind, s, hist, false, ch, "")
+			prefix = ch.next()
+		}
+		if cont {
+			r.oneExecution(kind, s, hist, true, &chooser{last: true}, scnContinue)
+		}
+		return
+	}
+	// quick tier, and the file-backed kinds in both tiers: lowest-first, then
+	// highest-first when there was any choice
+	first := &chooser{}
+	r.oneExecution(kind, s, hist, cont, first, "")
+	if len(first.nodes) > 0 {
+		r.oneExecution(kind, s, hist, cont, &chooser{last: true}, "")
 	}
 }
 
-func (r *runner) oneExecution(kind *kvKind, s *Set, hist []int, cont bool, ch *chooser) {
+func (r *runner) oneExecution(kind *kvKind, s *Set, hist []int, cont bool, ch *chooser, onlyScn string) {
 	u := r.universe(s)
-	pts, feeds, err := runHistory(r.t, kind, u, hist, runOpts{cont: cont, onlyStep: -1}, ch)
+	pts, feeds, err := runHistory(r.t, kind, u, hist, runOpts{cont: cont, onlyStep: -1, onlyScn: onlyScn}, ch)
 	sched := append([]int(nil), ch.taken...)
 	scP := r.res.Scenario(kind.Name + "/" + scnPrefix)
-	scP.Executions++
-	scP.Transitions += int64(feeds)
+	if onlyScn == "" {
+		scP.Executions++
+		scP.Transitions += int64(feeds)
+	} else {
+		r.res.Scenario(kind.Name + "/" + onlyScn).Transitions += int64(feeds)
+	}
 	if ee, ok := err.(engineErr); ok {
 		r.res.EngineError("set %s arrivals %v: %v", s.Name, histNames(s, hist), ee)
 		return
@@ -344,7 +388,7 @@ func (r *runner) oneExecution(kind *kvKind, s *Set, hist []int, cont bool, ch *c
 	if err != nil {
 		// an indexing / restart error or a panic inside perkeep code: confirm, then report under its own class
 		for i := 0; i < 5; i++ {
-			if _, _, err2 := runHistory(r.t, kind, u, hist, runOpts{cont: cont, onlyStep: -1}, &chooser{prefix: sched}); err2 == nil {
+			if _, _, err2 := runHistory(r.t, kind, u, hist, runOpts{cont: cont, onlyStep: -1, onlyScn: onlyScn}, &chooser{prefix: sched}); err2 == nil {
 				r.res.EngineError("error did not reproduce: set %s arrivals %v: %v", s.Name, histNames(s, hist), err)
 				return
 			}
@@ -427,7 +471,7 @@ func TestCheck(t *testing.T) {
 	work := 0
 	cut := false
 	for _, sp := range plan(vk.Thorough()) {
-		hs := sp.set.Histories(vk.Thorough())
+		hs := sp.set.Histories(vk.Thorough(), sp.kind.fileBacked())
 		done, mine := 0, 0
 		for _, h := range hs {
 			work++
